@@ -27,6 +27,14 @@ func runC14(p *Prog, r *Report) {
 	c14Keys(p, r)
 	c14Slice(p, r)
 	c14Eviction(p, r)
+	// R4: the map that remembers sources has the configured capacity (shared with C03.R8)
+	if tl := p.Named("ratelimit", "TokenLimiter"); tl != nil {
+		c03Capacity(p, r, "C14.R4", tl)
+	} else {
+		r.Anchor("C14.R4", "ratelimit.TokenLimiter", "type not found")
+	}
+	// R5: the built-in source token is injective on peers: two distinct peers never share limiter state (shared with C19.R1)
+	r.Borrow(p, runC19, map[string]string{"C19.R1": "C14.R5"}, nil)
 }
 
 // extractCall finds `x.extract.Extract(req)` in fn.
